@@ -1,5 +1,5 @@
 SPECIFICATION Spec
-CONSTANT MaxCalls = 3
+CONSTANT MaxCalls = 4
 INVARIANT SlotHoldsLatest
 INVARIANT AtMostOne
 INVARIANT RefusalKeeps
